@@ -33,6 +33,8 @@ const (
 	clsCtrlCharParam = "control_char_in_string"  // \r, NUL ... (only reachable through bound parameters) are printed raw
 	clsSignedOperand = "signed_operand_after_mul" // a * -b is built as a*(-1*b) without parentheses and re-read as (a*-1)*b
 	clsRegexOperand  = "regex_slash_plain_operand" // a regex holding '/' that is not the right side of =~ / !~ is scanned without unescaping, printing doubles the backslash
+	clsTimeLiteral   = "time_literal_left_in_condition" // a time predicate that planning cannot split off keeps a TimeLiteral, which is printed as a string
+	clsDivAfterLit   = "division_after_non_identifier" // ('x') / b: planning drops the redundant parentheses; the scanner reads '/' after a string, boolean, duration or ::tag as a regex start
 	clsEmptyInSet    = "empty_string_in_set"      // IN ('') : the store-side set parser drops empty strings
 )
 
@@ -54,6 +56,7 @@ type dialect struct {
 	yacc   bool // text is read by the yacc grammar (front end); otherwise by the recursive-descent parser
 	fields bool // generating a SELECT field list (no comparison operators at top level)
 	params bool // bound parameters may be used ($p0 ...)
+	planned bool // text must also pass query.Compile: no calls in conditions, time predicates added
 }
 
 type gen struct {
@@ -62,6 +65,7 @@ type gen struct {
 	d      dialect
 	params map[string]interface{}
 	np     int
+	noTime bool // planned dialect: the next comparison must not be a time predicate
 }
 
 func (g *gen) pick(label string, n int) int { return rapid.IntRange(0, n-1).Draw(g.t, label) }
@@ -483,6 +487,9 @@ func (g *gen) atom() frag {
 }
 
 func (g *gen) call(depth int) frag {
+	if g.d.planned {
+		return g.atom()
+	}
 	name := rapid.SampledFrom(callNames).Draw(g.t, "fn")
 	n := rapid.IntRange(0, 4).Draw(g.t, "arity")
 	args := make([]string, 0, n)
@@ -518,7 +525,12 @@ func (g *gen) caseWhen(depth int) frag {
 
 var cmpOps = []string{"=", "!=", "<>", "<", "<=", ">", ">="}
 
+var timePreds = []string{"time > now() - 5m", "time >= '2020-01-01T00:00:00Z'", "time < 1600000000000000000", "time <= '2021-06-01 12:30:00.5'", "time > now() - 1h30m", "time >= 10s", "time < now() + 10m", "time = '2020-02-02'"}
+
 func (g *gen) comparison(depth int) string {
+	if g.d.planned && !g.noTime && g.chance("timePred", 25) {
+		return rapid.SampledFrom(timePreds).Draw(g.t, "timePredText")
+	}
 	switch g.pick("cmpKind", 14) {
 	case 0, 1: // regex match
 		op := rapid.SampledFrom([]string{"=~", "!~"}).Draw(g.t, "reop")
@@ -563,7 +575,7 @@ func (g *gen) comparison(depth int) string {
 		l := g.value(depth)
 		r := g.value(depth)
 		ls, rs := l.s, r.s
-		if g.d.yacc && depth > 0 && g.chance("condOperand", 6) {
+		if g.d.yacc && !g.d.planned && depth > 0 && g.chance("condOperand", 6) {
 			// yacc lets a parenthesised condition be a comparison operand
 			ls = "(" + g.cond(depth-1) + ")"
 		}
@@ -579,11 +591,15 @@ func (g *gen) comparison(depth int) string {
 // followed (at the same level) by an AND is the known class clsAndOverOr for the yacc front end.
 func (g *gen) cond(depth int) string {
 	if depth <= 0 {
-		return g.comparison(0)
+		g.noTime = true // a condition made of time predicates only vanishes in planning
+		s := g.comparison(0)
+		g.noTime = false
+		return s
 	}
 	n := rapid.IntRange(1, 4).Draw(g.t, "chain")
 	parts := make([]string, n)
 	for i := range parts {
+		g.noTime = i == 0
 		if g.chance("subcond", 30) {
 			parts[i] = "(" + g.cond(depth-1) + ")"
 			if g.chance("dblcondparen", 10) {
